@@ -1061,4 +1061,485 @@ theorem step_refines {c : Cfg} {m : Mach} {sp : SpecRegs} (h : MInv c m sp) (op 
       · rw [if_neg hq, h.out q (by omega)]
     rw [e]; exact h2
 
+
+/-! ## static_string -/
+open Igris.Proto
+
+theorem tw_len_lt (p : Byte → Bool) : ∀ (l : List Byte), (∃ x, x ∈ l ∧ p x = false) → (l.takeWhile p).length < l.length := by
+  intro l
+  induction l with
+  | nil => intro ⟨x, h, _⟩; cases h
+  | cons b rest ih =>
+    intro ⟨x, hx, hp⟩
+    cases hb : p b with
+    | false => simp [List.takeWhile_cons, hb]
+    | true =>
+      have : ∃ x, x ∈ rest ∧ p x = false := by
+        cases hx with
+        | head => rw [hb] at hp; cases hp
+        | tail _ h => exact ⟨x, h, hp⟩
+      have := ih this
+      simp [List.takeWhile_cons, hb]; omega
+
+theorem tw_eq_take (p : Byte → Bool) : ∀ (l : List Byte), l.takeWhile p = l.take (l.takeWhile p).length := by
+  intro l
+  induction l with
+  | nil => rfl
+  | cons b rest ih =>
+    cases hb : p b with
+    | false => simp [List.takeWhile_cons, hb]
+    | true => simp [List.takeWhile_cons, hb]; exact ih
+
+theorem tw_append (p : Byte → Bool) (z : Byte) (t : List Byte) (hz : p z = false) :
+    ∀ (es : List Byte), (es ++ z :: t).takeWhile p = es.takeWhile p := by
+  intro es
+  induction es with
+  | nil => simp [List.takeWhile_cons, hz]
+  | cons b rest ih =>
+    cases hb : p b with
+    | false => simp [List.takeWhile_cons, hb]
+    | true => simp [List.takeWhile_cons, hb]; exact ih
+
+/-- "not the terminator", the predicate of `c_str`'s reader and of `strlen` -/
+abbrev nz : Byte → Bool := fun x => decide (x ≠ 0)
+
+theorem strlenLoop_spec (arg : List Byte) : ∀ (rest pre : List Byte) (fuel : Nat), arg = pre ++ rest → (0 : Byte) ∈ rest →
+    rest.length < fuel → strlenLoop arg fuel pre.length = .ok (pre.length + (rest.takeWhile nz).length) := by
+  intro rest
+  induction rest with
+  | nil => intro pre fuel _ h; cases h
+  | cons b rest ih =>
+    intro pre fuel harg hmem hfuel
+    cases fuel with
+    | zero => cases hfuel
+    | succ fuel =>
+      have hb : arg[pre.length]? = some b := by rw [harg]; simp
+      by_cases hz : b = 0
+      · subst hz
+        simp [strlenLoop, rd, hb, bind, Except.bind, pure, Except.pure, List.takeWhile_cons]
+      · have hmem' : (0 : Byte) ∈ rest := by
+          cases hmem with
+          | head => exact absurd rfl hz
+          | tail _ h => exact h
+        have hf : rest.length < fuel := by simp only [List.length_cons] at hfuel; omega
+        have := ih (pre ++ [b]) fuel (by rw [harg]; simp) hmem' hf
+        simp only [List.length_append, List.length_singleton] at this
+        simp only [strlenLoop, rd, hb, bind, Except.bind, pure, Except.pure, hz, if_false, this, List.takeWhile_cons]
+        have : nz b = true := by simp only [nz, ne_eq, decide_not, Bool.not_eq_eq_eq_not, Bool.not_true, decide_eq_false_iff_not]; exact hz
+        rw [this]; simp; omega
+
+theorem strlen_spec {arg : List Byte} (h : (0 : Byte) ∈ arg) :
+    strlen arg = .ok (arg.takeWhile nz).length := by
+  have := strlenLoop_spec arg arg [] (arg.length + 1) rfl h (by omega)
+  simpa [strlen] using this
+
+theorem takeWhile_length_lt {arg : List Byte} (h : (0 : Byte) ∈ arg) : (arg.takeWhile nz).length < arg.length :=
+  tw_len_lt nz arg ⟨0, h, by simp [nz]⟩
+
+theorem memcpyLoop_spec (src : List Byte) : ∀ (k i : Nat) (d : List Byte), i + k ≤ src.length → i + k ≤ d.length →
+    ∃ d', memcpyLoop src k i d = .ok d' ∧ d'.length = d.length ∧
+      ∀ p, d'[p]? = if i ≤ p ∧ p < i + k then src[p]? else d[p]? := by
+  intro k
+  induction k with
+  | zero => intro i d _ _; exact ⟨d, rfl, rfl, by intro p; simp; omega⟩
+  | succ k ih =>
+    intro i d h1 h2
+    have hs : src[i]? = some src[i] := List.getElem?_eq_getElem (by omega)
+    obtain ⟨d', a1, a2, a3⟩ := ih (i + 1) (d.set i src[i]) (by omega) (by simp; omega)
+    refine ⟨d', by simp [memcpyLoop, rd, hs, wr, show i < d.length by omega, a1, bind, Except.bind, pure, Except.pure], by simpa using a2, ?_⟩
+    intro p
+    have := a3 p
+    grind
+
+/-- the object holds exactly the characters `es` -/
+structure SAbs (N : Nat) (s : SStr) (es : List Byte) : Prop where
+  len : s.data.length = N + 1
+  size : s.size = es.length
+  le : es.length ≤ N
+  eq : s.data.take s.size = es
+
+theorem SAbs.contents {N : Nat} {s : SStr} {es : List Byte} (h : SAbs N s es) : s.contents = es := h.eq
+
+theorem sabs_of_memcpy {N : Nat} {junk src d' : List Byte} {n : Nat} (hj : junk.length = N + 1) (hn : n ≤ N)
+    (hsrc : n ≤ src.length) (hl : d'.length = junk.length)
+    (hp : ∀ p, d'[p]? = if 0 ≤ p ∧ p < 0 + n then src[p]? else junk[p]?) : SAbs N ⟨d', n⟩ (src.take n) := by
+  refine ⟨by rw [hl, hj], by simp; omega, by simp; omega, ?_⟩
+  apply List.ext_getElem?
+  intro p
+  have := hp p
+  simp only [List.getElem?_take]
+  grind
+
+theorem sCtorPtr_spec {N : Nat} {junk arg : List Byte} (hj : junk.length = N + 1) (h0 : (0 : Byte) ∈ arg) :
+    ∃ s, sCtorPtr N junk arg = .ok s ∧ SAbs N s ((arg.takeWhile nz).take N) := by
+  have hlt := takeWhile_length_lt h0
+  generalize hL : (arg.takeWhile nz).length = L at hlt
+  have hn : (if L > N then N else L) ≤ N := by split <;> omega
+  have hn2 : (if L > N then N else L) ≤ L := by split <;> omega
+  obtain ⟨d', a1, a2, a3⟩ := memcpyLoop_spec arg (if L > N then N else L) 0 junk (by omega) (by omega)
+  refine ⟨⟨d', if L > N then N else L⟩, ?_, ?_⟩
+  · simp only [sCtorPtr, strlen_spec h0, hL, bind, Except.bind, pure, Except.pure, a1]
+  · have := sabs_of_memcpy hj hn (by omega) a2 a3
+    have e : (arg.takeWhile nz).take N = arg.take (if L > N then N else L) := by
+      rw [tw_eq_take nz arg, hL, List.take_take]
+      congr 1; split <;> omega
+    rw [e]; exact this
+
+theorem sCtorPtrLen_spec {N : Nat} {junk arg : List Byte} {sz : Nat} (hj : junk.length = N + 1) (hsz : sz ≤ arg.length) :
+    ∃ s, sCtorPtrLen N junk arg sz = .ok s ∧ SAbs N s ((arg.take sz).take N) := by
+  have hn : (if sz > N then N else sz) ≤ N := by split <;> omega
+  have hn2 : (if sz > N then N else sz) ≤ sz := by split <;> omega
+  obtain ⟨d', a1, a2, a3⟩ := memcpyLoop_spec arg (if sz > N then N else sz) 0 junk (by omega) (by omega)
+  refine ⟨⟨d', if sz > N then N else sz⟩, ?_, ?_⟩
+  · simp only [sCtorPtrLen, bind, Except.bind, pure, Except.pure, a1]
+  · have := sabs_of_memcpy hj hn (by omega) a2 a3
+    have e : (arg.take sz).take N = arg.take (if sz > N then N else sz) := by
+      rw [List.take_take]; congr 1; split <;> omega
+    rw [e]; exact this
+
+def specSPush (N : Nat) (es : List Byte) (c : Byte) : List Byte := if es.length < N then es ++ [c] else es
+
+theorem sPush_spec {N : Nat} {s : SStr} {es : List Byte} (h : SAbs N s es) (c : Byte) :
+    ∃ s', sPush N s c = .ok s' ∧ SAbs N s' (specSPush N es c) := by
+  have hs := h.size; have hl := h.le; have hlen := h.len
+  by_cases hf : s.size ≥ N
+  · have : specSPush N es c = es := by simp [specSPush]; omega
+    exact ⟨s, by simp [sPush, hf], by rw [this]; exact h⟩
+  · have hsp : specSPush N es c = es ++ [c] := by simp [specSPush]; omega
+    refine ⟨⟨s.data.set s.size c, s.size + 1⟩, by simp [sPush, hf, wr, show s.size < s.data.length by omega, bind, Except.bind, pure, Except.pure], ?_⟩
+    rw [hsp]
+    refine ⟨by simp [hlen], by simp [hs], by simp; omega, ?_⟩
+    have heq := h.eq
+    apply List.ext_getElem?
+    intro p
+    have : (s.data.take s.size)[p]? = es[p]? := by rw [heq]
+    simp only [List.getElem?_take, List.getElem?_append, List.getElem?_set] at *
+    grind
+
+theorem sCStr_spec {N : Nat} {s : SStr} {es : List Byte} (h : SAbs N s es) :
+    ∃ s' out, sCStr s = .ok (s', out) ∧ SAbs N s' es ∧ out = es.takeWhile nz := by
+  have hs := h.size; have hl := h.le; have hlen := h.len; have heq := h.eq
+  have hlt : s.size < s.data.length := by omega
+  refine ⟨⟨s.data.set s.size 0, s.size⟩, (s.data.set s.size 0).takeWhile nz,
+    by simp only [sCStr, wr, hlt, if_true, bind, Except.bind, pure, Except.pure], ?_, ?_⟩
+  · refine ⟨by simp [hlen], hs, hl, ?_⟩
+    simp only []
+    rw [List.take_set_of_le (Nat.le_refl _)]; exact heq
+  · -- data' = es ++ 0 :: tail
+    have hd : s.data.set s.size 0 = es ++ 0 :: s.data.drop (s.size + 1) := by
+      apply List.ext_getElem?
+      intro p
+      have : (s.data.take s.size)[p]? = es[p]? := by rw [heq]
+      simp only [List.getElem?_take, List.getElem?_append, List.getElem?_set, List.getElem?_cons, List.getElem?_drop] at *
+      by_cases hp : p < es.length
+      · grind
+      · by_cases hp2 : p = es.length
+        · grind
+        · have : s.size + 1 + (p - es.length - 1) = p := by omega
+          grind
+    rw [hd]
+    exact tw_append nz 0 _ (by simp [nz]) es
+
+theorem sGet_spec {N : Nat} {s : SStr} {es : List Byte} (h : SAbs N s es) {i : Nat} (hi : i < es.length) :
+    sGet s i = .ok es[i] := by
+  have heq := h.eq; have hs := h.size; have hlen := h.len; have hl := h.le
+  have : (s.data.take s.size)[i]? = es[i]? := by rw [heq]
+  rw [List.getElem?_take, if_pos (by omega), List.getElem?_eq_getElem hi] at this
+  simp [sGet, rd, this]
+
+theorem sSet_spec {N : Nat} {s : SStr} {es : List Byte} (h : SAbs N s es) {i : Nat} (hi : i < es.length) (c : Byte) :
+    ∃ s', sSet s i c = .ok s' ∧ SAbs N s' (es.set i c) := by
+  have heq := h.eq; have hs := h.size; have hlen := h.len; have hl := h.le
+  refine ⟨⟨s.data.set i c, s.size⟩, by simp [sSet, wr, show i < s.data.length by omega, bind, Except.bind, pure, Except.pure], ?_⟩
+  refine ⟨by simp [hlen], by simp [hs], by simp; exact hl, ?_⟩
+  simp only []
+  rw [← heq, List.take_set]
+
+theorem sabs_default {N : Nat} {junk : List Byte} (hj : junk.length = N + 1) : SAbs N (sDefault junk) [] :=
+  ⟨hj, rfl, by simp, by simp [sDefault]⟩
+
+theorem sabs_clear {N : Nat} {s : SStr} {es : List Byte} (h : SAbs N s es) : SAbs N (sClear s) [] :=
+  ⟨h.len, rfl, by simp, by simp [sClear]⟩
+
+/-! ### the string machine against K reference strings -/
+
+abbrev SpecS := Nat → Option (List Byte)
+
+def setSpecS (f : SpecS) (r : Nat) (x : Option (List Byte)) : SpecS := fun q => if q = r then x else f q
+
+def specSStep (c : SCfg) (sp : SpecS) : SOp → SpecS × SOut
+  | .new r =>
+      match decide (r < c.K), sp r with
+      | true, none => (setSpecS sp r (some []), .unit)
+      | _, _ => (sp, .bad)
+  | .ptr r arg =>
+      match decide (r < c.K), sp r with
+      | true, none => (setSpecS sp r (some ((arg.takeWhile nz).take c.N)), .unit)
+      | _, _ => (sp, .bad)
+  | .ptrlen r arg n =>
+      match decide (r < c.K ∧ c.port = true ∧ n ≤ arg.length), sp r with
+      | true, none => (setSpecS sp r (some ((arg.take n).take c.N)), .unit)
+      | _, _ => (sp, .bad)
+  | .copy r s =>
+      match decide (r < c.K ∧ s < c.K), sp r, sp s with
+      | true, none, some eo => (setSpecS sp r (some eo), .unit)
+      | _, _, _ => (sp, .bad)
+  | .push r ch =>
+      match decide (r < c.K), sp r with
+      | true, some es => (setSpecS sp r (some (specSPush c.N es ch)), .unit)
+      | _, _ => (sp, .bad)
+  | .add r ch =>
+      match decide (r < c.K ∧ c.port = true), sp r with
+      | true, some es => (setSpecS sp r (some (specSPush c.N es ch)), .unit)
+      | _, _ => (sp, .bad)
+  | .clear r =>
+      match decide (r < c.K ∧ c.port = true), sp r with
+      | true, some _ => (setSpecS sp r (some []), .unit)
+      | _, _ => (sp, .bad)
+  | .cstr r =>
+      match decide (r < c.K), sp r with
+      | true, some es => (sp, .bytes (es.takeWhile nz))
+      | _, _ => (sp, .bad)
+  | .get r i =>
+      match decide (r < c.K), sp r with
+      | true, some es => if i < es.length then (sp, .byte (es.getD i 0)) else (sp, .bad)
+      | _, _ => (sp, .bad)
+  | .set r i ch =>
+      match decide (r < c.K), sp r with
+      | true, some es => if i < es.length then (setSpecS sp r (some (es.set i ch)), .unit) else (sp, .bad)
+      | _, _ => (sp, .bad)
+  | .del r =>
+      match decide (r < c.K), sp r with
+      | true, some _ => (setSpecS sp r none, .unit)
+      | _, _ => (sp, .bad)
+
+def specSRun (c : SCfg) : List SOp → SpecS → SpecS × List SOut
+  | [], sp => (sp, [])
+  | op :: ops, sp =>
+      let (sp', o) := specSStep c sp op
+      let (sp'', os) := specSRun c ops sp'
+      (sp'', o :: os)
+
+def SRel (N : Nat) : Option SStr → Option (List Byte) → Prop
+  | none, none => True
+  | some s, some es => SAbs N s es
+  | _, _ => False
+
+def SInv (c : SCfg) (m : SRegs) (sp : SpecS) : Prop := ∀ r, SRel c.N (m r) (sp r)
+
+/-- the caller's side of the contract: a `const char*` argument is NUL-terminated -/
+def SOp.wf : SOp → Prop
+  | .ptr _ arg => (0 : Byte) ∈ arg
+  | _ => True
+
+theorem srel_none {N : Nat} {o : Option SStr} {x : Option (List Byte)} (h : SRel N o x) : o = none ↔ x = none := by
+  cases o <;> cases x <;> simp_all [SRel]
+
+theorem sinv_set {c : SCfg} {m : SRegs} {sp : SpecS} (h : SInv c m sp) (r : Nat) {s' : Option SStr}
+    {es' : Option (List Byte)} (hr : SRel c.N s' es') : SInv c (setSReg m r s') (setSpecS sp r es') := by
+  intro q
+  by_cases hq : q = r
+  · subst hq; simpa [setSReg, setSpecS] using hr
+  · simpa [setSReg, setSpecS, hq] using h q
+
+theorem sstep_refines {c : SCfg} (hj : c.junk.length = c.N + 1) {m : SRegs} {sp : SpecS} (h : SInv c m sp)
+    (op : SOp) (hwf : op.wf) :
+    ∃ m', sstep c m op = .ok (m', (specSStep c sp op).2) ∧ SInv c m' (specSStep c sp op).1 := by
+  cases op with
+  | new r  =>
+    by_cases hk : r < c.K
+    · have hrel := h r
+      cases hm : m r with
+      | some s =>
+        cases hs : sp r with
+        | none => rw [hm, hs] at hrel; exact hrel.elim
+        | some es => exact ⟨m, by simp [sstep, specSStep, hk, hm, hs], by simpa [specSStep, hk, hs] using h⟩
+      | none =>
+        have hs : sp r = none := (srel_none hrel).mp hm
+        refine ⟨setSReg m r (some (sDefault c.junk)), by simp [sstep, specSStep, hk, hm, hs], ?_⟩
+        have := sinv_set h r (s' := some (sDefault c.junk)) (es' := some []) (sabs_default hj)
+        simpa [specSStep, hk, hs] using this
+    · exact ⟨m, by simp [sstep, specSStep, hk], by simpa [specSStep, hk] using h⟩
+  | ptr r arg =>
+    by_cases hk : r < c.K
+    · have hrel := h r
+      cases hm : m r with
+      | some s =>
+        cases hs : sp r with
+        | none => rw [hm, hs] at hrel; exact hrel.elim
+        | some es => exact ⟨m, by simp [sstep, specSStep, hk, hm, hs], by simpa [specSStep, hk, hs] using h⟩
+      | none =>
+        have hs : sp r = none := (srel_none hrel).mp hm
+        obtain ⟨s', p1, p2⟩ := sCtorPtr_spec (N := c.N) hj (show (0 : Byte) ∈ arg from hwf)
+        refine ⟨setSReg m r (some s'), by simp [sstep, specSStep, hk, hm, hs, p1, bind, Except.bind, pure, Except.pure], ?_⟩
+        have := sinv_set h r (s' := some s') (es' := some ((arg.takeWhile nz).take c.N)) p2
+        simpa [specSStep, hk, hs] using this
+    · exact ⟨m, by simp [sstep, specSStep, hk], by simpa [specSStep, hk] using h⟩
+  | ptrlen r arg n =>
+    by_cases hk : r < c.K ∧ c.port = true ∧ n ≤ arg.length
+    · have hrel := h r
+      cases hm : m r with
+      | some s =>
+        cases hs : sp r with
+        | none => rw [hm, hs] at hrel; exact hrel.elim
+        | some es => exact ⟨m, by simp [sstep, specSStep, hk, hm, hs], by simpa [specSStep, hk, hs] using h⟩
+      | none =>
+        have hs : sp r = none := (srel_none hrel).mp hm
+        obtain ⟨s', p1, p2⟩ := sCtorPtrLen_spec (N := c.N) (arg := arg) hj hk.2.2
+        refine ⟨setSReg m r (some s'), by simp [sstep, specSStep, hk, hm, hs, p1, bind, Except.bind, pure, Except.pure], ?_⟩
+        have := sinv_set h r (s' := some s') (es' := some ((arg.take n).take c.N)) p2
+        simpa [specSStep, hk, hs] using this
+    · exact ⟨m, by simp [sstep, specSStep, hk], by simpa [specSStep, hk] using h⟩
+  | copy r s =>
+    by_cases hk : r < c.K ∧ s < c.K
+    · have hrel := h r
+      have hrel2 := h s
+      cases hm : m r with
+      | some v =>
+        cases hs : sp r with
+        | none => rw [hm, hs] at hrel; exact hrel.elim
+        | some es => exact ⟨m, by simp [sstep, specSStep, hk, hm, hs], by simpa [specSStep, hk, hs] using h⟩
+      | none =>
+        have hs : sp r = none := (srel_none hrel).mp hm
+        cases hm2 : m s with
+        | none =>
+          have hs2 : sp s = none := (srel_none hrel2).mp hm2
+          exact ⟨m, by simp [sstep, specSStep, hk, hm, hs, hm2, hs2], by simpa [specSStep, hk, hs, hs2] using h⟩
+        | some o =>
+          cases hs2 : sp s with
+          | none => rw [hm2, hs2] at hrel2; exact hrel2.elim
+          | some eo =>
+            rw [hm2, hs2] at hrel2
+            refine ⟨setSReg m r (some o), by simp [sstep, specSStep, hk, hm, hs, hm2, hs2], ?_⟩
+            have := sinv_set h r (s' := some o) (es' := some eo) hrel2
+            simpa [specSStep, hk, hs, hs2] using this
+    · exact ⟨m, by simp [sstep, specSStep, hk], by simpa [specSStep, hk] using h⟩
+  | push r ch =>
+    by_cases hk : r < c.K
+    · have hrel := h r
+      cases hm : m r with
+      | none =>
+        have hs : sp r = none := (srel_none hrel).mp hm
+        exact ⟨m, by simp [sstep, specSStep, hk, hm, hs], by simpa [specSStep, hk, hs] using h⟩
+      | some s =>
+        cases hs : sp r with
+        | none => rw [hm, hs] at hrel; exact hrel.elim
+        | some es =>
+          rw [hm, hs] at hrel
+          obtain ⟨s', p1, p2⟩ := sPush_spec hrel ch
+          refine ⟨setSReg m r (some s'), by simp [sstep, specSStep, hk, hm, hs, p1, bind, Except.bind, pure, Except.pure], ?_⟩
+          have := sinv_set h r (s' := some s') (es' := some (specSPush c.N es ch)) p2
+          simpa [specSStep, hk, hs] using this
+    · exact ⟨m, by simp [sstep, specSStep, hk], by simpa [specSStep, hk] using h⟩
+  | add r ch =>
+    by_cases hk : r < c.K ∧ c.port = true
+    · have hrel := h r
+      cases hm : m r with
+      | none =>
+        have hs : sp r = none := (srel_none hrel).mp hm
+        exact ⟨m, by simp [sstep, specSStep, hk, hm, hs], by simpa [specSStep, hk, hs] using h⟩
+      | some s =>
+        cases hs : sp r with
+        | none => rw [hm, hs] at hrel; exact hrel.elim
+        | some es =>
+          rw [hm, hs] at hrel
+          obtain ⟨s', p1, p2⟩ := sPush_spec hrel ch
+          refine ⟨setSReg m r (some s'), by simp [sstep, specSStep, hk, hm, hs, p1, bind, Except.bind, pure, Except.pure], ?_⟩
+          have := sinv_set h r (s' := some s') (es' := some (specSPush c.N es ch)) p2
+          simpa [specSStep, hk, hs] using this
+    · exact ⟨m, by simp [sstep, specSStep, hk], by simpa [specSStep, hk] using h⟩
+  | clear r  =>
+    by_cases hk : r < c.K ∧ c.port = true
+    · have hrel := h r
+      cases hm : m r with
+      | none =>
+        have hs : sp r = none := (srel_none hrel).mp hm
+        exact ⟨m, by simp [sstep, specSStep, hk, hm, hs], by simpa [specSStep, hk, hs] using h⟩
+      | some s =>
+        cases hs : sp r with
+        | none => rw [hm, hs] at hrel; exact hrel.elim
+        | some es =>
+          rw [hm, hs] at hrel
+          refine ⟨setSReg m r (some (sClear s)), by simp [sstep, specSStep, hk, hm, hs], ?_⟩
+          have := sinv_set h r (s' := some (sClear s)) (es' := some []) (sabs_clear hrel)
+          simpa [specSStep, hk, hs] using this
+    · exact ⟨m, by simp [sstep, specSStep, hk], by simpa [specSStep, hk] using h⟩
+  | cstr r  =>
+    by_cases hk : r < c.K
+    · have hrel := h r
+      cases hm : m r with
+      | none =>
+        have hs : sp r = none := (srel_none hrel).mp hm
+        exact ⟨m, by simp [sstep, specSStep, hk, hm, hs], by simpa [specSStep, hk, hs] using h⟩
+      | some s =>
+        cases hs : sp r with
+        | none => rw [hm, hs] at hrel; exact hrel.elim
+        | some es =>
+          rw [hm, hs] at hrel
+          obtain ⟨s', out, p1, p2, p3⟩ := sCStr_spec hrel
+          refine ⟨setSReg m r (some s'), by simp [sstep, specSStep, hk, hm, hs, p1, p3, bind, Except.bind, pure, Except.pure], ?_⟩
+          have := sinv_set h r (s' := some s') (es' := some es) p2
+          have e : setSpecS sp r (some es) = sp := by funext q; by_cases hq : q = r <;> simp [setSpecS, hq, hs]
+          rw [e] at this
+          simpa [specSStep, hk, hs] using this
+    · exact ⟨m, by simp [sstep, specSStep, hk], by simpa [specSStep, hk] using h⟩
+  | get r i =>
+    by_cases hk : r < c.K
+    · have hrel := h r
+      cases hm : m r with
+      | none =>
+        have hs : sp r = none := (srel_none hrel).mp hm
+        exact ⟨m, by simp [sstep, specSStep, hk, hm, hs], by simpa [specSStep, hk, hs] using h⟩
+      | some s =>
+        cases hs : sp r with
+        | none => rw [hm, hs] at hrel; exact hrel.elim
+        | some es =>
+          rw [hm, hs] at hrel
+          have hsz := hrel.size
+          by_cases hi : i < es.length
+          · have p1 := sGet_spec hrel hi
+            have hi' : i < s.size := by omega
+            exact ⟨m, by simp [sstep, specSStep, hk, hm, hs, hi, hi', p1, bind, Except.bind, pure, Except.pure], by simpa [specSStep, hk, hs, hi] using h⟩
+          · have hi' : ¬ i < s.size := by omega
+            exact ⟨m, by simp [sstep, specSStep, hk, hm, hs, hi, hi'], by simpa [specSStep, hk, hs, hi] using h⟩
+    · exact ⟨m, by simp [sstep, specSStep, hk], by simpa [specSStep, hk] using h⟩
+  | set r i ch =>
+    by_cases hk : r < c.K
+    · have hrel := h r
+      cases hm : m r with
+      | none =>
+        have hs : sp r = none := (srel_none hrel).mp hm
+        exact ⟨m, by simp [sstep, specSStep, hk, hm, hs], by simpa [specSStep, hk, hs] using h⟩
+      | some s =>
+        cases hs : sp r with
+        | none => rw [hm, hs] at hrel; exact hrel.elim
+        | some es =>
+          rw [hm, hs] at hrel
+          have hsz := hrel.size
+          by_cases hi : i < es.length
+          · obtain ⟨s', p1, p2⟩ := sSet_spec hrel hi ch
+            have hi' : i < s.size := by omega
+            refine ⟨setSReg m r (some s'), by simp [sstep, specSStep, hk, hm, hs, hi, hi', p1, bind, Except.bind, pure, Except.pure], ?_⟩
+            have := sinv_set h r (s' := some s') (es' := some (es.set i ch)) p2
+            simpa [specSStep, hk, hs, hi] using this
+          · have hi' : ¬ i < s.size := by omega
+            exact ⟨m, by simp [sstep, specSStep, hk, hm, hs, hi, hi'], by simpa [specSStep, hk, hs, hi] using h⟩
+    · exact ⟨m, by simp [sstep, specSStep, hk], by simpa [specSStep, hk] using h⟩
+  | del r  =>
+    by_cases hk : r < c.K
+    · have hrel := h r
+      cases hm : m r with
+      | none =>
+        have hs : sp r = none := (srel_none hrel).mp hm
+        exact ⟨m, by simp [sstep, specSStep, hk, hm, hs], by simpa [specSStep, hk, hs] using h⟩
+      | some s =>
+        cases hs : sp r with
+        | none => rw [hm, hs] at hrel; exact hrel.elim
+        | some es =>
+          rw [hm, hs] at hrel
+          refine ⟨setSReg m r none, by simp [sstep, specSStep, hk, hm, hs], ?_⟩
+          have := sinv_set h r (s' := none) (es' := none) trivial
+          simpa [specSStep, hk, hs] using this
+    · exact ⟨m, by simp [sstep, specSStep, hk], by simpa [specSStep, hk] using h⟩
+
 end Igris.C14
